@@ -10,7 +10,8 @@ Linear algebra behind `QR::solve` (no model involved): with `A = Q_full·R_full`
 trapezoidal with vanishing rows `≥ n`:
 
 * `qr_normal_eq` — `R·x = (Q_fullᵀ·b)[0:n]` implies the normal equations `Aᵀ·(A·x - b) = 0`;
-* `normal_eq_minimal` — the normal equations imply that the residual is minimal;
+* `normal_eq_minimal` — the normal equations imply that the residual is minimal (`normal_eq_unique`: uniquely so for
+  linearly independent columns);
 * `qr_diag_ne_zero` — linearly independent columns of `A` imply that no diagonal entry of `R` vanishes;
 * `qr_square_solve` — for a square system `R·x = Q_fullᵀ·b` implies `A·x = b`;
 * `min_norm_of_range` — `A·x = b` and `x ∈ range Aᵀ` imply that `x` has minimal norm among the solutions.
@@ -35,6 +36,22 @@ theorem normal_eq_minimal (A : Matrix (Fin m) (Fin n) K) (b : Fin m → K) (x : 
   rw [e, add_dotProduct, dotProduct_add, dotProduct_add, hz, dotProduct_comm (A *ᵥ (y - x)) (A *ᵥ x - b), hz]
   have := dot_self_nonneg (A *ᵥ (y - x))
   linarith
+
+/-- … and, for linearly independent columns, the minimiser is unique -/
+theorem normal_eq_unique (A : Matrix (Fin m) (Fin n) K) (b : Fin m → K) (x : Fin n → K)
+    (h : Aᵀ *ᵥ (A *ᵥ x - b) = 0) (hinj : ∀ y : Fin n → K, A *ᵥ y = 0 → y = 0) (y : Fin n → K)
+    (hy : (A *ᵥ y - b) ⬝ᵥ (A *ᵥ y - b) ≤ (A *ᵥ x - b) ⬝ᵥ (A *ᵥ x - b)) : y = x := by
+  have e : A *ᵥ y - b = (A *ᵥ x - b) + A *ᵥ (y - x) := by
+    rw [Matrix.mulVec_sub]; abel
+  have hz : (A *ᵥ x - b) ⬝ᵥ (A *ᵥ (y - x)) = 0 := by
+    rw [← dotProduct_transpose_mulVec, h, dotProduct_zero]
+  rw [e, add_dotProduct, dotProduct_add, dotProduct_add, hz, dotProduct_comm (A *ᵥ (y - x)) (A *ᵥ x - b), hz] at hy
+  have h0 : (A *ᵥ (y - x)) ⬝ᵥ (A *ᵥ (y - x)) = 0 := le_antisymm (by linarith) (dot_self_nonneg _)
+  have hv : A *ᵥ (y - x) = 0 := by
+    funext i
+    have := (Finset.sum_eq_zero_iff_of_nonneg (fun j _ => mul_self_nonneg ((A *ᵥ (y - x)) j))).mp h0 i (Finset.mem_univ i)
+    exact mul_self_eq_zero.mp this
+  exact sub_eq_zero.mp (hinj _ hv)
 
 omit [LinearOrder K] [IsStrictOrderedRing K] in
 /-- `R·x = (Q_fullᵀ·b)[0:n]` implies the normal equations -/
